@@ -135,3 +135,29 @@ Definition sig_F9b (tr : list slabel) : bool :=
 (* for C20 the finding explains the C03 part only: everything else must hold *)
 Definition sig_F9b_c20 (tr : list slabel) : bool :=
   sig_F9b tr && c04_ok tr && c05_ok tr && c06_ok tr.
+
+(* The same read-then-dispatch window exists in Retry(DispatchErr): GetById reads the task (scheduled and
+   due), MarkAsDispatched follows unconditionally (found while proving C03: Proofs/SysProofs.v,
+   cex_retry_window). The recorded finding F9b covers both: EVERY early start is a task postponed between the
+   scheduler's read of it (GetNext of the announcing Step, or a GetById) and its MarkAsDispatched. *)
+Fixpoint postponed_after_fetch (tr : list slabel) (fetched : option string) (acc : list string) : list string :=
+  match tr with
+  | [] => acc
+  | l :: r =>
+    match l with
+    | LCall (CGetById _) _ _ (RRes (RTask t)) => postponed_after_fetch r (Some (t_id t)) acc
+    | LUser (HUpdate _ _ id p) ROk =>
+      match fetched, u_sched p with
+      | Some a, Some _ => postponed_after_fetch r fetched (if String.eqb a id then id :: acc else acc)
+      | _, _ => postponed_after_fetch r fetched acc
+      end
+    | LCall (CMarkDisp _) _ _ _ => postponed_after_fetch r None acc
+    | _ => postponed_after_fetch r fetched acc
+    end
+  end.
+Definition sig_F9b2 (tr : list slabel) : bool :=
+  let w := postponed_in_window tr None [] ++ postponed_after_fetch tr None [] in
+  negb (match early_starts tr with [] => true | _ => false end)
+  && forallb (fun id => str_mem id w) (early_starts tr).
+Definition sig_F9b2_c20 (tr : list slabel) : bool :=
+  sig_F9b2 tr && c04_ok tr && c05_ok tr && c06_ok tr.
